@@ -22,7 +22,8 @@ pub struct Case {
     pub thr: String,
     /// stream clause
     pub toks: Vec<TokSpec>,
-    /// 0 all, 1 none, 2 first k, 3 skip k then rest, 4 every other, 5 all + keep alive past the call
+    /// 0 all, 1 none, 2 first k, 3 skip k then rest, 4 every other, 5 all + keep alive past the call,
+    /// 6 all, and the constructor returns the first token it was given (with the data attached)
     pub sink_mode: u8,
     pub sink_k: usize,
     /// text clause (fault-free configuration); empty = skip
@@ -135,6 +136,20 @@ impl Replace for RTok {
             s.calls.push((data.clone(), ids, nid));
             nid
         });
+        if mode == 6 && !taken.is_empty() {
+            // hand one of the received tokens back as the replacement
+            let mut first = taken.remove(0);
+            drop(taken);
+            first.data = Some(data.clone());
+            first.text = data.clone();
+            first.lower = data.to_lowercase();
+            SINK.with(|s| {
+                if let Some(c) = s.borrow_mut().calls.last_mut() {
+                    c.2 = first.id;
+                }
+            });
+            return first;
+        }
         if mode == 5 {
             let mut moved = Some(taken);
             SINK.with(|s| s.borrow_mut().stash.extend(moved.take().unwrap()));
@@ -301,7 +316,8 @@ fn exec_stream<L: LangInterpreter>(l: &L, case: &Case, stats: &mut Stats, fp: &m
             2 => stats.hit("fault.sink_first_k"),
             3 => stats.hit("fault.sink_skip_k"),
             4 => stats.hit("fault.sink_every_other"),
-            _ => stats.hit("fault.sink_keep_alive_past_call"),
+            5 => stats.hit("fault.sink_keep_alive_past_call"),
+            _ => stats.hit("fault.sink_returns_received_token"),
         }
         if occs.iter().any(|o| o.end - o.start > 1) {
             stats.hit("probe.multi_token_occurrence");
@@ -489,7 +505,11 @@ impl Check for C02 {
         let thr = (*rng.pick(&THRESHOLDS)).to_string();
         let pool = &POOLS[lang];
         let cfg = GenCfg::swarm(rng);
-        let len = if rng.chance(1, 48) { rng.range(60, 300) } else { rng.range(0, 30) };
+        let len = match rng.below(480) {
+            0 => rng.range(800, 2500),
+            1..=10 => rng.range(60, 300),
+            _ => rng.range(0, 30),
+        };
         let mut toks = gen_stream(rng, pool, &cfg, len);
         let hint_pct = *rng.pick(&[0u32, 0, 0, 10]);
         for t in toks.iter_mut() {
@@ -502,7 +522,7 @@ impl Check for C02 {
                 }
             }
         }
-        let sink_mode = *rng.pick(&[0u8, 0, 0, 1, 2, 3, 4, 5]);
+        let sink_mode = *rng.pick(&[0u8, 0, 0, 1, 2, 3, 4, 5, 6]);
         let sink_k = rng.below(4);
         let text = if rng.chance(3, 4) {
             // one text in 150 is a long document (thousands of bytes, hundreds of tokens)
@@ -653,6 +673,7 @@ impl Check for C02 {
             "fault.sink_skip_k",
             "fault.sink_every_other",
             "fault.sink_keep_alive_past_call",
+            "fault.sink_returns_received_token",
             "fault.interpreter_crash_in_earlier_call",
         ]
     }
